@@ -112,9 +112,10 @@ class Pool:
         self.dd = collections.defaultdict(int, {"id": 1, "name": "n"})
         self.block = next(iter(fa.block_reader(io.BytesIO(_container_const(fa)))))  # a Block handed to write_block
         self.named = {}  # caller-supplied named-schema dictionary (may be filled)
+        self.meta = {"owner": "ops"}  # caller-supplied metadata mapping (the writer adds its reserved entries to it)
         self.tmpdir = tmpdir
 
-    EXEMPT = {"named", "fa", "tmpdir", "_shared"}
+    EXEMPT = {"named", "meta", "fa", "tmpdir", "_shared"}
 
     def objects(self):
         return {k: v for k, v in self.__dict__.items() if k not in self.EXEMPT}
@@ -367,6 +368,14 @@ CALLS = {
     "write_partial_default": lambda fa, p: _sl_write(fa, p.partial_default, {"id": 1}),
     "validate_partial_default": lambda fa, p: fa.validate({"id": 1}, p.partial_default, raise_errors=False),
     "canon_partial_default": lambda fa, p: fa.schema.to_parsing_canonical_form(p.partial_default),
+    # a parse that fails midway, into the caller's dictionary: what the dictionary already held stays
+    "parse_failing_into_named": lambda fa, p: fa.schema.to_parsing_canonical_form(fa.parse_schema({"type": "record", "name": "Later", "namespace": "acme", "fields": [
+        {"name": "k", "type": {"type": "enum", "name": "Kind", "symbols": ["A", "B", "C"]}}, {"name": "s", "type": {"type": "record", "name": "Sub", "fields": [{"name": "x", "type": "int", "default": 3}]}},
+        {"name": "bad", "type": "acme.DoesNotExist"}]}, p.named)),
+    "use_named_kind": lambda fa, p: fa.schema.to_parsing_canonical_form(fa.parse_schema({"type": "array", "items": "acme.Kind"}, p.named)),
+    # one metadata dict handed to two container writes
+    "container_a_shared_meta": lambda fa, p: list(fa.reader(io.BytesIO(_container(fa, p.raw_a, [p.da], metadata=p.meta)))),
+    "container_b_shared_meta": lambda fa, p: list(fa.reader(io.BytesIO(_container(fa, p.raw_b, [p.db], metadata=p.meta, codec="deflate")))),
     "load_schema": _load,
     "load_child": lambda fa, p: _load_named(fa, p, "acme.Child"),
     "load_order_diamond": lambda fa, p: _load_named(fa, p, "acme.Order"),
@@ -599,12 +608,13 @@ COLLIDERS = ["parse_a_into_named", "parse_b_into_named", "expand_a", "expand_nod
              "read_a_as_b", "read_b_as_a", "json_read_a_absent", "json_read_a_raw_absent", "json_read_b_absent", "generate_a", "generate_b_raw",
              "dec3_read", "dec12_read", "write_a_bad_last", "container_a", "container_read_a_as_b", "validate_a_raises", "load_schema",
              "parse_node_parsed_into_named", "write_node", "read_a", "read_b", "read_dangling_sub", "canon_piecewise", "container_piecewise",
-             "container_union_piecewise", "container_read_a", "generate_dangling", "load_child", "load_order_diamond", "readers_overlap", "writers_overlap", "read_a_as_aliased", "legacy_read_with_reader_schema", "legacy_read_plain", "validate_dd", "write_dd", "custom_logical_unregistered", "custom_logical_registered", "parse_int_default_1", "parse_int_default_1.0", "parse_boolean_default_1", "parse_boolean_default_true", "parse_partial_default", "write_partial_default", "json_read_nested_defaults", "block_copy_twice", "block_copy_pool", "write_hinted_strict", "write_hinted", "dec_p6_read", "dec_p20_read"]
+             "container_union_piecewise", "container_read_a", "generate_dangling", "load_child", "load_order_diamond", "readers_overlap", "writers_overlap", "read_a_as_aliased", "legacy_read_with_reader_schema", "legacy_read_plain", "validate_dd", "write_dd", "custom_logical_unregistered", "custom_logical_registered", "parse_int_default_1", "parse_int_default_1.0", "parse_boolean_default_1", "parse_boolean_default_true", "parse_partial_default", "write_partial_default", "parse_failing_into_named", "use_named_kind", "container_a_shared_meta", "container_b_shared_meta", "json_read_nested_defaults", "block_copy_twice", "block_copy_pool", "write_hinted_strict", "write_hinted", "dec_p6_read", "dec_p20_read"]
 
 
 def step_check(res, fa, pool, hist, call):
     """Apply `call` after hist; compare with baseline, check inputs intact."""
     before = {k: snap(v) for k, v in pool.objects().items()}
+    named_before = list(pool.named)
     got = canon_result(CALLS[call], fa, pool)
     res.evals += 1
     res.transitions += 1
@@ -612,6 +622,9 @@ def step_check(res, fa, pool, hist, call):
     if got != _BASE[call]:
         res.add(Violation("c17.result", f"result-differs:{call}|after:{hist[-1] if hist else '-'}",
                           f"{call} after {list(hist)} returned {short(got, 400)}; first in a fresh interpreter it returns {short(_BASE[call], 400)}", info))
+    lost = [n for n in named_before if n not in pool.named]
+    if lost:
+        res.add(Violation("c17.input-intact", f"named-schemas-entries-removed:{call}", f"{call} removed {lost} from the caller's named-schema dictionary | after {list(hist)}", info))
     after = {k: snap(v) for k, v in pool.objects().items()}
     for k in before:
         if before[k] != after[k]:
